@@ -30,6 +30,9 @@ AT_SIG = "application/vnd.zzverif.sig.v1"
 FATAL = ["503", "404", "401", "resetall"]
 TRANSIENT = ["429", "500", "reset", "trunc"]
 RETRYABLE = ["429", "500", "reset"]     # absorbed by reghttp on every request class when fewer than the retry limit
+RETRYABLE_ALL = RETRYABLE + ["502", "504", "408"]     # every status reghttp backs off on and retries
+# round 5: what the same client did before the observed copy (its caches / feature memos carry over)
+WARM_PRIORS = [("reflist", AT_SBOM), ("reflist", AT_SIG), ("reflist", ""), ("taglist", ""), ("head", "")]
 
 
 def load_jsonl(fn):
@@ -84,6 +87,13 @@ class Engine:
             s["prior"] = self.rng.choice(["", "", "copy", "get"])
             if s["prior"] and self.rng.random() < 0.7:
                 s["cache"] = 1
+        # (round 5) earlier listings / HEADs by the same client: artifact list [--filter-artifact-type], tag ls,
+        # manifest head; a repeat of the same copy (by this client or by another one) onto what the first left
+        if pair in ("tworeg", "samereg", "reg2dir") and not s.get("prior") and self.rng.random() < 0.2:
+            s["prior"], s["prior_arg"] = self.rng.choice(WARM_PRIORS)
+            s["cache"] = self.rng.choice([1, 1, 0])
+        if pair != "samerepo" and not s.get("prior") and self.rng.random() < 0.1:
+            s.update(prior=self.rng.choice(["recopy", "recopy-other"]), wipe="", cache=self.rng.choice([0, 1]))
         s["listorder"] = self.rng.choice(["", "", "rev", "ins", "rand"])
         # host configuration: an (empty) mirror named for the target / source registry; a source that has the
         # referrers API and left-over sha256-<hex> tags (only with a target that has the API: otherwise the client's
@@ -98,10 +108,10 @@ class Engine:
         s.update(kw)
         if s.get("leftover") and not (s.get("refapi_src") and s.get("refapi_tgt")):
             s["leftover"] = 0
-        if s.get("prior") == "recopy":
+        if s.get("prior") == "recopy" and s.get("wipe"):
             s["cache"] = 0
         if s["mode"] == "script":
-            s.update(prior="", mirror="", wipe="")
+            s.update(prior="", mirror="", wipe="", prior_arg="")
             if s.get("leftover") and not (kw.get("leftover")):
                 s["leftover"] = 0
             # (D) has one request per upload / listing and no cache: keep its scripts exact
@@ -308,6 +318,78 @@ class Engine:
                 for prior in ("copy", "get"):
                     out.append(self.scn(sh, pr, origin, prior=prior, cache=1, mode=self.rng.choice(["fifo", "random", "ungated"]),
                                         tag0=self.rng.choice(["none", "stale"]), bydigest=self.rng.choice([0, 0, 1])))
+        return out
+
+    def warm_cache(self, origin, shapes=REF_SHAPES + ["dtag", "idx2"]):
+        """Round 5 (seed C03-9): the observed copy follows listings / HEADs the same cached client made: referrers
+        of every source manifest with an artifact-type filter (which the registry applies on its side) or without,
+        the tag listing, manifest HEADs; then the copy with referrers (all / another filter) / digest tags."""
+        out = []
+        for sh in shapes:
+            osets = [{"referrers": 1}, {"referrers": 1, "reffilter": AT_SIG}] if sh in REF_SHAPES else [{"dtags": 1}, {"referrers": 1, "dtags": 1}]
+            for pr in ("tworeg", "samereg", "reg2dir"):
+                for prior, arg in WARM_PRIORS:
+                    for opts in osets:
+                        out.append(self.scn(sh, pr, origin, prior=prior, prior_arg=arg, cache=1, opts=dict(opts), refapi_src=1,
+                                            refapi_tgt=self.rng.choice([0, 1]), leftover=0, listorder=self.rng.choice(["", "", "rev"]),
+                                            mode=self.rng.choice(["fifo", "random", "ungated"])))
+        return out
+
+    def repeats(self, origin, pairs=("tworeg", "samereg", "reg2dir", "dir2reg", "dir2dir")):
+        """Round 5 (seed C14-9): the periodic re-sync - the same copy made a second time onto what the first left
+        (by the same client, cache on / off, or by a fresh one), for every shape x option set (also options the
+        shape gives nothing to do for: referrers / digest tags on a plain index switch the digest short-cut off)."""
+        out = []
+        for sh in self.shapes:
+            if sh in LOOP_SHAPES:
+                continue
+            osets = self.option_sets(sh)
+            for extra in ({"referrers": 1}, {"dtags": 1}, {"referrers": 1, "dtags": 1}, {"referrers": 1, "dtags": 1, "fast": 1}):
+                if extra not in osets:
+                    osets.append(extra)
+            osets = [o for o in osets if not o.get("force") and not o.get("reftgt")]
+            for opts in osets:
+                pr = self.rng.choice(pairs)
+                out.append(self.scn(sh, pr, origin, opts=dict(opts), prior=self.rng.choice(["recopy", "recopy", "recopy-other"]),
+                                    wipe="", cache=self.rng.choice([0, 1]), mirror="", tag0=self.rng.choice(["none", "stale"]),
+                                    mode=self.rng.choice(["fifo", "random", "ungated"]), conc=self.rng.choice([1, 3, 16]),
+                                    refapi_src=self.rng.choice([0, 1, 1]), refapi_tgt=self.rng.choice([0, 1, 1]),
+                                    bydigest=self.rng.choice([0, 0, 1])))
+        return out
+
+    def closers(self, origin, pairs=("reg2dir", "dir2dir")):
+        """Round 5 (seeds C03-10 = C04-9): a second user of the same RegClient on the same layout target while the
+        copy runs - rc.Close(target) (what regctl does after every copy), alone or after a copy of another image
+        into the same layout - at every request position of the copy (before the source GET / HEAD of every object)
+        and after every blob has been stored (progress callback)."""
+        out = []
+        for sh in self.shapes:
+            if sh in LOOP_SHAPES:
+                continue
+            for pr in pairs:
+                for n in self.cat[sh]["nodes"]:
+                    isblob = n["kind"] == "blob"
+                    for via in ("req", "cb"):
+                        if via == "req" and pr == "dir2dir":
+                            continue
+                        if via == "cb" and not isblob:
+                            continue
+                        osets = self.option_sets(sh)
+                        opts = self.rng.choice([osets[0], self.rng.choice(osets)])
+                        if opts.get("reftgt"):
+                            opts = {}
+                        kw = {}
+                        if via == "req":
+                            # (the top manifest is asked for by tag: request name "S")
+                            kw["closer"] = {"host": "src", "class": "blob_get" if isblob else self.rng.choice(["manifest_get", "manifest_head"]),
+                                            "n": "S" if n["name"] == self.cat[sh]["root"] else n["name"], "occ": 1}
+                            kw["bydigest"] = 0
+                        else:
+                            kw["closer_cb"] = {"host": "", "class": "", "n": n["name"], "occ": 1}
+                        out.append(self.scn(sh, pr, origin, opts=dict(opts), closer_op=self.rng.choice(["close", "close", "copyclose"]),
+                                            prior="", mirror="", tag0=self.rng.choice(["stale", "stale", "none"]),
+                                            init=self.rng.choice([[], [], [x["name"] for x in self.cat[sh]["nodes"] if x["kind"] != "blob"][:1]]),
+                                            mode=self.rng.choice(["fifo", "random", "ungated"]), conc=self.rng.choice([1, 3, 16]), **kw))
         return out
 
     def round4(self, origin):
